@@ -32,6 +32,13 @@ CLAIMED = {
             "Every integer of both window managers, DATA length/padding, increment and "
             "acknowledged sizes and old/new INITIAL_WINDOW_SIZE are solver variables; the ghost "
             "'advertised window' is computed from the frames actually emitted.", "7/C04"),
+    'C05': ("symbolic one-step induction over the real WindowManager and its connection glue "
+            "from an arbitrary state satisfying a stated inductive invariant (CrossHair/z3); "
+            "liveness decided as a state predicate",
+            "cur/max/processed/unacknowledged are solver variables constrained only by the "
+            "inductive invariant (re-proved by every step); each step (DATA, acknowledge, DATA on "
+            "closed/reset streams, settings ACK) is exhausted; 'U == 0 and max > 0 implies cur > "
+            "0' replaces the unbounded-history liveness quantifier.", "7/C05"),
 }
 
 NOT_YET = {}
